@@ -42,6 +42,7 @@ def corpus():
 
 def run(chk):
     thorough = chk.tier == 'thorough'
+    chk.bounds['families added after seeded changes'] = 'native fallback (enumeration of 25 427 strings) only if a part is unexplored'
     Lc = [1, 2, 3] + ([4] if thorough else [])
     Lt = [1, 2, 3] + ([4] if thorough else [])
     chk.bounds.update({'characters': f'every string of length in {Lc} over printable ASCII, tab/newline/CR and the non-ASCII representatives (U+00A0, U+3000, e-acute, sharp-s, Cyrillic Zhe, superscript two, Arabic-Indic one, euro sign, middle dot); each character is a 32-bit solver variable; classes are discovered by the branches of the code and of the reference',
